@@ -79,6 +79,10 @@ PROPS['C17'] = {'module': 'misc',
     'technique': 'TLC exhaustive model check of the affine wrapper (read(store(u*s+b)) and direction flip for negative scale; limits bracket) over formats x 10 modes x 32 scales x 8 biases + replay on the real code (scalars, arrays, 3 routes, inference) + TLC trace validation to 16 bits',
     'level_text': 'TLC enumerates every (format n_word<=W, rounding, overflow, scale k/2^j with k in +-{1,3,5,7}, bias) and every quarter-LSB grid value u; the harness stores v = u*s + b (all intermediates exact doubles; the witness u*s+b = v is re-checked by TLC) and TLC judges code = Quantize(u), read = s*code*2^-f + b, flags as for the unscaled value, upper/lower/precision through the same affine map, and that inference sizes the transformed value.',
     'level_note': _AR_NOTE + ' Quick tier executes a rotating quarter of the configurations (all of them are model-checked); thorough executes all.'}
+PROPS['C15'] = {'module': 'reduce',
+    'technique': 'TLC exhaustive model check of the growth rules for sums / products / dot over every assignment of the extremes {Lo,Hi}^n (n<=NMAX, n_word<=3) + replay on the real code of all 12 functions through numpy and method routes, axis None and every axis, shapes to 3x3 / length 8 + TLC trace validation (folds over the element matrix in TLA+) of formats to 12 bits',
+    'level_text': 'TLC checks that with ceil(log2 n) extra word bits for sums, n*n_word bits for products and both for dot the exact result of every {Lo,Hi}^n vector fits (and that the sum rule is tight); the harness executes sum, cumsum, prod, cumprod, max, min, sort, clip, transpose, diagonal, trace, dot and matmul on the real arrays through np.f(x) and x.f(), and TLC recomputes each result as a fold over the matrix of integer codes and compares value-exactly, with shape, returned type and absence of overflow/underflow.',
+    'level_note': _AR_NOTE}
 
 NOT_APPLICABLE = {}
 
@@ -165,6 +169,12 @@ def default_account(chk, obs):
             for c in cs:
                 if c < 0 or row['f'] < 0:
                     seen.add((k, row['route'], row['s'], row['w'], row['f'], c))
+        elif k == 'reduce':
+            cs = [unwint(c) for r_ in row.get('rows', []) for c in r_]
+            ev += max(1, len(cs))
+            lo, hi = _ext(row['x'])
+            if cs and all(c in (lo, hi) for c in cs):
+                seen.add((k, row['fn'], row['route'], row['axis'], row['x']['s'], row['x']['w'], row['x']['f'], tuple(cs), str(row.get('yrows'))))
         elif k in ('render', 'parse'):
             cs = [unwint(c) for c in row.get('c', [])]
             ev += len(cs)
@@ -200,5 +210,5 @@ def default_account(chk, obs):
     chk.nontrivial += len(seen)
     chk.rule = ('cases = every (configuration, input/operand codes) of the TLC small world executed on the real code plus seeded '
                 'boundary-directed wide-format cases; non-trivial (measured from observations, distinct): stores whose write raised '
-                'overflow/underflow/inaccuracy; arithmetic/division cases with an operand at an extreme code of its format; string cases at the most negative / maximum / all-ones code; dtype cases with negative or oversized n_frac, complex or >=64-bit words; inference cases whose inferred format is at the cap or holds an extreme code; other kinds: the '
+                'overflow/underflow/inaccuracy; arithmetic/division cases with an operand at an extreme code of its format; reductions whose every element is at an extreme of the format; string cases at the most negative / maximum / all-ones code; dtype cases with negative or oversized n_frac, complex or >=64-bit words; inference cases whose inferred format is at the cap or holds an extreme code; other kinds: the '
                 'boundary tags the executor attached (row.nt); raised errors by (route, carrier, type)')
